@@ -70,6 +70,14 @@ M = [
     ('connect-does-not-inform-upstream-side', 'streamz/core.py', "        for node in (self, downstream):\n            if loops:", "        for node in (downstream,):\n            if loops:", ['C19']),
     # connect-checks-end-nodes-only: equivalent since a7cb0c5/83809ae (every node of a pipeline now knows its loop and mode)
     ('gather-no-wait-downstream', 'streamz/dask.py', "        result2 = yield self._emit(result, metadata=metadata)", "        result2 = self._emit(result, metadata=metadata)", ['C20']),
+    ('map-async-stop-unconditional', 'streamz/core.py', "        if self.work_task:\n            stop_work, _ = self.work_task\n            stop_work.set()\n            self.work_task = None\n        super().stop()", "        stop_work, _ = self.work_task\n        stop_work.set()\n        self.work_task = None\n        super().stop()", ['C18']),
+    ('kafka-batch-skips-empty-values', 'streamz/sources.py', "            if msg is not None and msg.error() is None:\n                if high >= msg.offset():", "            if msg and msg.value() and msg.error() is None:\n                if high >= msg.offset():", ['C09']),
+    ('kafka-reset-aliases-unknown', 'streamz/sources.py', "in ('latest', 'largest', 'end'):", "in ('latest',):", ['C09']),
+    ('kafka-latest-resolved-in-first-round-only', 'streamz/sources.py', "            for part in out:\n                yield self.loop.add_callback(checkpoint_emit, part)", "            start_at_end = set()\n            for part in out:\n                yield self.loop.add_callback(checkpoint_emit, part)", ['C09']),
+    ('periodic-dataframe-double-loop', 'streamz/dataframe/core.py', "            if not self._polling[0]:", "            if True:", ['C18']),
+    ('http-server-handler-ignores-stop', 'streamz/sources.py', "                if self.source.stopped:\n                    # stop() makes the server", "                if False:\n                    # stop() makes the server", ['C18']),
+    ('sync-drops-falsy-exception', 'streamz/core.py', "    if error[0] is not None:\n        raise error[0]", "    if error[0]:\n        raise error[0]", ['C16']),
+    ('textfile-seeks-to-end-at-every-start', 'streamz/sources.py', "        if self.stopped:\n            self.stopped = False\n            self.started = True\n            if not self._running:\n                # otherwise the previous run()", "        if getattr(self, 'from_end', False) and hasattr(self, 'file'):\n            self.file.seek(0, 2)\n        if self.stopped:\n            self.stopped = False\n            self.started = True\n            if not self._running:\n                # otherwise the previous run()", ['C18']),
 ]
 
 
